@@ -104,12 +104,18 @@ theorem FW.update_ok (cfg : Config R) (hfx : cfg.fx.anyRow = true) (s : FW φ) (
     (FW.update cfg s cur ms).1.Inv ∧ FrameOk cfg.thr cur (FW.update cfg s cur ms).2 := by
   unfold FW.update
   by_cases hms : ms = []
-  · have hc : cur = [] := by
-      by_contra h; exact hne h hms
-    subst hc; subst hms
-    simp only [guardOk, hfx, if_true, List.isEmpty_nil, Bool.not_true]
-    refine ⟨hs, ⟨by simp, ?_, by simp [Distinct]⟩⟩
-    intro i h; simp at h
+  · subst hms
+    have hg : guardOk cfg.fx [] = false := by simp [guardOk, hfx]
+    rw [hg]
+    simp only [Bool.false_eq_true, if_false]
+    by_cases hn : cfg.fx.nanSafe = true
+    · rw [if_pos hn]; exact FW.init_ok cfg s hs cur
+    · rw [if_neg hn]
+      have hc : cur = [] := by
+        by_contra h; exact hne h rfl
+      subst hc
+      refine ⟨hs, ⟨by simp, ?_, by simp [Distinct]⟩⟩
+      intro i h; simp at h
   · have hg : guardOk cfg.fx ms = true := by
       simp [guardOk, hfx, hms]
     rw [if_pos hg]
@@ -374,12 +380,19 @@ theorem LQ.update_ok (cfg : Config R) (hfa : cfg.fx.anyRow = true) (hfb : cfg.fx
     ∃ s' ids, LQ.update cfg s cur ms = .ok (s', ids) ∧ s'.Inv ∧ FrameOk cfg.thr cur ids := by
   unfold LQ.update
   by_cases hms : ms = []
-  · have hc : cur = [] := by
-      by_contra h; exact hne h hms
-    subst hc; subst hms
-    simp only [guardOk, hfa, if_true, List.isEmpty_nil, Bool.not_true]
-    refine ⟨_, _, rfl, hs, ⟨by simp, ?_, by simp [Distinct]⟩⟩
-    intro i h; simp at h
+  · subst hms
+    have hg : guardOk cfg.fx [] = false := by simp [guardOk, hfa]
+    rw [hg]
+    simp only [Bool.false_eq_true, if_false]
+    by_cases hn : cfg.fx.nanSafe = true
+    · rw [if_pos hn]
+      exact ⟨_, _, rfl, (LQ.init_ok cfg hw s hs cur).1, (LQ.init_ok cfg hw s hs cur).2⟩
+    · rw [if_neg hn]
+      have hc : cur = [] := by
+        by_contra h; exact hne h rfl
+      subst hc
+      refine ⟨_, _, rfl, hs, ⟨by simp, ?_, by simp [Distinct]⟩⟩
+      intro i h; simp at h
   · have hg : guardOk cfg.fx ms = true := by simp [guardOk, hfa, hms]
     rw [if_pos hg]
     simp only [hfb, Bool.true_eq_false, false_and, if_false]
